@@ -340,6 +340,9 @@ def run_mozpath(chk, model):
             cases.append((path + "/sub/f", pat, True, "descendant"))
         if not has_ss and len(parts) > 1:
             cases.append(("/".join(parts[:-1]), pat, False, "ancestor"))
+        if "*" not in segs[-1] and not has_ss:
+            # the last component must match whole: foo/b does not match foo/bar
+            cases.append((path + "x", pat, False, "extended-last"))
         if not has_ss and not segs[0].startswith("*"):
             cases.append(("q" + path, pat, None if segs[0].startswith("*") else False, "foreign-head"))
         cases.append((ml.rand_path(rng), pat, None, "random-path"))
